@@ -256,6 +256,9 @@ class Gen:
             used = set(re.findall(r"[A-Za-z_][A-Za-z_0-9]*", l))
             if not (used & (set(env) - {"ds"})) and "Select" in l:
                 self.helpers.append(("1:" + key, aT, l))
+            if r.random() < 0.25:  # argument given by keyword
+                pname = re.match(r"\(lambda (\w+):", l).group(1)
+                return f"{l}({pname}={a})"
             return f"{l}({a})"
         if o == "helper":
             # a two-parameter helper (what an inlined Python helper function looks like): it
@@ -292,7 +295,15 @@ class Gen:
                 text = f"(lambda {js}, {c}: {body})"
                 self.helpers.append((key, text))
             aj, ac = E(("seq", ("rec", "jet"))), E("int")
-            return None if None in (aj, ac) else f"{text}({aj}, {ac})"
+            if None in (aj, ac):
+                return None
+            pj, pc = re.match(r"\(lambda (\w+), (\w+):", text).groups()
+            how = r.random()
+            if how < 0.65:
+                return f"{text}({aj}, {ac})"
+            if how < 0.85:  # mixed positional / keyword
+                return f"{text}({aj}, {pc}={ac})"
+            return f"{text}({pc}={ac}, {pj}={aj})"  # all by keyword, re-ordered
         if o == "build":
             if T[0] == "tup":
                 es = [E(t) for t in T[1]]
